@@ -165,7 +165,23 @@ def must_pass(ctx):
     ctx.control("R6.must-pass silent on commit_good", res["commit_good"] is None)
 
 
-ALL = {"alloc": alloc, "status": status, "ownership": ownership, "cursor": cursor, "arrays": arrays,
+def units(ctx):
+    from .rules import units as un
+    P = program()
+    b = [x for x in un.sites(P, [P.fn("grow_bad")])]
+    g = [x for x in un.sites(P, [P.fn("grow_good")])]
+    ctx.control("R19.units fires on grow_bad", len(b) == 1 and not b[0][5])
+    ctx.control("R19.units silent on grow_good", len(g) == 1 and g[0][5])
+
+
+def endian(ctx):
+    from .rules import endian as en
+    P = program()
+    ctx.control("R20.endian fires on assemble_bad", len(en.sites([P.fn("assemble_bad")])) == 1)
+    ctx.control("R20.endian silent on assemble_good", not en.sites([P.fn("assemble_good")]))
+
+
+ALL = {"endian": endian, "units": units, "alloc": alloc, "status": status, "ownership": ownership, "cursor": cursor, "arrays": arrays,
        "recursion": recursion, "narrowing": narrowing, "skeleton": skeleton, "must_pass": must_pass}
 
 
